@@ -5,6 +5,10 @@ CONSTANTS
   Fresh = FALSE
   SortKinds <- Sim_SortKinds
   Seps <- MC_Seps
+  XKeys <- Sim_XKeys
+  XVals <- Sim_XVals
+  MaxEx = 2
+  FillNs <- MC_NoXKeys
   Gen = "full"
 ACTION_CONSTRAINT GenPrint
 CHECK_DEADLOCK FALSE
